@@ -11,7 +11,7 @@ def canon_py(x):
     if isinstance(x, Attribute):
         return canon_attr(x)
     if isinstance(x, bool):
-        return ("bool", x)
+        return ("int", int(x))  # IntAttr(True) == IntAttr(1) in xDSL: bool payloads are ints (DESIGN 1.6)
     if isinstance(x, int):
         return ("int", x)
     if isinstance(x, float):
@@ -40,6 +40,50 @@ def canon_attr(a):
         return ("P", type(a).__module__ + "." + type(a).__qualname__, tuple(canon_py(p) for p in a.parameters))
     if isinstance(a, Data):
         return ("D", type(a).__module__ + "." + type(a).__qualname__, canon_py(a.data))
+    return ("?", type(a).__name__, str(a))
+
+
+def canon_py_strict(x):
+    """Like canon_py but (a) bool payloads are ints (IntAttr(True) and IntAttr(1) are the same value by rule),
+    (b) dataclass payloads (AffineMap, AffineSet, AffineExpr trees, ...) are canonicalised field by field instead
+    of through their str() - so the result never depends on any printer - and (c) enum members carry their
+    class.  Added for C06/C08 (bit-exact text round trip, value semantics); canon_py/canon_attr are unchanged."""
+    import dataclasses
+    import enum
+    if isinstance(x, Attribute):
+        return canon_attr_strict(x)
+    if isinstance(x, enum.Enum):
+        return ("enum", type(x).__name__, x.name)
+    if isinstance(x, bool):
+        return ("int", int(x))
+    if isinstance(x, int):
+        return ("int", x)
+    if isinstance(x, float):
+        return ("f64bits", struct.unpack("<Q", struct.pack("<d", x))[0])
+    if isinstance(x, str):
+        return ("str", x)
+    if isinstance(x, (bytes, bytearray)):
+        return ("bytes", bytes(x))
+    if x is None:
+        return ("none",)
+    if isinstance(x, (tuple, list)):
+        return ("seq", tuple(canon_py_strict(e) for e in x))
+    if isinstance(x, (set, frozenset)):
+        return ("set", tuple(sorted((canon_py_strict(e) for e in x), key=repr)))
+    if isinstance(x, dict) or hasattr(x, "items"):
+        return ("map", tuple(sorted(((canon_py_strict(k), canon_py_strict(v)) for k, v in x.items()), key=repr)))
+    if dataclasses.is_dataclass(x) and not isinstance(x, type):
+        return ("dc", type(x).__name__,
+                tuple((f.name, canon_py_strict(getattr(x, f.name))) for f in dataclasses.fields(x)))
+    return ("obj", type(x).__name__, str(x))
+
+
+def canon_attr_strict(a):
+    """Printer-independent, bit-level canonical form of an attribute (see canon_py_strict)."""
+    if isinstance(a, ParametrizedAttribute):
+        return ("P", type(a).__module__ + "." + type(a).__qualname__, tuple(canon_py_strict(p) for p in a.parameters))
+    if isinstance(a, Data):
+        return ("D", type(a).__module__ + "." + type(a).__qualname__, canon_py_strict(a.data))
     return ("?", type(a).__name__, str(a))
 
 
